@@ -94,22 +94,22 @@ Definition br_lelem (self : rstate -> N -> sres rstate unit) (t : N) (st : rstat
 
 (* struct field: if fsz := typeToSize[uint8(ft)]; fsz > 0 { skipn(fsz) } else { skipType(ft, maxdepth-1) } *)
 Definition br_field (self : rstate -> N -> sres rstate unit) (ft : N) (st : rstate) : sres rstate unit :=
-  sbind (sret st (tts "bufferreader" ft)) (fun st fsz =>
+  sbind (sret st (tts SBufferReader ft)) (fun st fsz =>
     if (0 <? fsz)%Z then br_skipn st fsz else self st ft).
 
 Fixpoint brskip (d : nat) (fu : nat) (st : rstate) (t : N) {struct d} : sres rstate unit :=
   match d with
   | O => (st, Err e_depth)
   | S d' =>
-    sbind (sret st (tts "bufferreader" t)) (fun st n =>
+    sbind (sret st (tts SBufferReader t)) (fun st n =>
     if (0 <? n)%Z then br_skipn st n
     else if is_ty t thrift_STRING then br_skipstr st
     else if is_ty t thrift_MAP then
       sbind (br_map_begin st) (fun st1 h =>
         let '(kt, vt, sz) := h in
         if (Z.of_N sz <? 0)%Z then (st1, Err e_neg_size) else        (* dead: int(uint32) >= 0 *)
-        sbind (sret st1 (tts "bufferreader" kt)) (fun st1 ksz =>
-        sbind (sret st1 (tts "bufferreader" vt)) (fun st1 vsz =>
+        sbind (sret st1 (tts SBufferReader kt)) (fun st1 ksz =>
+        sbind (sret st1 (tts SBufferReader vt)) (fun st1 vsz =>
         if (0 <? ksz)%Z && (0 <? vsz)%Z then br_skipn st1 (Z.of_N sz * (ksz + vsz))
         else
           let self := fun s t' => brskip d' fu s t' in
@@ -118,7 +118,7 @@ Fixpoint brskip (d : nat) (fu : nat) (st : rstate) (t : N) {struct d} : sres rst
       sbind (br_list_begin st) (fun st1 h =>
         let '(vt, sz) := h in
         if (Z.of_N sz <? 0)%Z then (st1, Err e_neg_size) else        (* dead *)
-        sbind (sret st1 (tts "bufferreader" vt)) (fun st1 vsz =>
+        sbind (sret st1 (tts SBufferReader vt)) (fun st1 vsz =>
         if (0 <? vsz)%Z then br_skipn st1 (Z.of_N sz * vsz)
         else
           let self := fun s t' => brskip d' fu s t' in
